@@ -407,6 +407,10 @@ func (e *balEngine) build(op balOp) *balTx {
 		e.finishTx(bt, orStr(sf, f), CallScript(e.bal, "mint", to.addr, amt, []byte("m")))
 	case bBurn:
 		from := e.account(op.From, false, true)
+		if Prop() == "C09" && len(e.lockAccs) > 0 && op.To%10 < 7 {
+			i := op.From % len(e.lockAccs)
+			from = balActor{name: fmt.Sprintf("lock#%d", i+1), addr: e.lockAccs[i]}
+		}
 		amt, f := e.amount(op.Amt, e.m.get(string(from.addr)), new(big.Int))
 		signers, sf := AlphaSignerClass(e.w, op.Sig, e.stranger)
 		bt.from, bt.amount, bt.signers = from.addr, amt, signers
